@@ -152,11 +152,19 @@ def run_case(beh, sandbox, prefix_arg=None, extra_rst=None, capture_effects=True
             import yaml
             os.makedirs(os.path.join(sandbox, "home", ".config", "cminx"), exist_ok=True)
             sfile = os.path.join(sandbox, "s.yaml")
+            # several patterns come from several sources (-e, the -s file, the per-user file): all of them apply
+            cli_pats, file_pats, user_pats = (pats[:1], pats[1:2], pats[2:]) if len(pats) >= 2 else ([], pats, [])
             with open(sfile, "w") as fh:
                 yaml.safe_dump({"input": {"recursive": cfg["recursive"], "auto_exclude_directories_without_cmake": cfg["auto"],
-                                          "exclude_filters": pats}, "rst": {"module_path_separator": cfg["sep"]},
+                                          "exclude_filters": file_pats}, "rst": {"module_path_separator": cfg["sep"]},
                                 "logging": {"version": 1}}, fh)
-            exc, so = naming.run_main(["-s", sfile, "-o", "out", "in"], sandbox, os.path.join(sandbox, "home"))
+            if user_pats:
+                with open(os.path.join(sandbox, "home", ".config", "cminx", "config.yaml"), "w") as fh:
+                    yaml.safe_dump({"input": {"exclude_filters": user_pats}}, fh)
+            eargs = []
+            for pt in cli_pats:
+                eargs += ["-e", pt]
+            exc, so = naming.run_main(["-s", sfile, "-o", "out"] + eargs + ["in"], sandbox, os.path.join(sandbox, "home"))
             stdout.write(so)
             if exc:
                 obs["exc"] = exc
@@ -599,7 +607,8 @@ def c18_case(beh, sandbox, n):
     for d in order:
         dd = os.path.dirname(d)
         if seen and seen[-1][0] == dd:
-            if seen[-1][1] > os.path.basename(d):
+            # order of the SOURCE names: x.cmake < x.d.cmake although "x.rst" > "x.d.rst" (compare stem + ".")
+            if seen[-1][1][:-3] > os.path.basename(d)[:-3]:
                 return "sorted", order, "pages of a directory are not printed in sorted name order"
         elif dd in [x[0] for x in seen]:
             return "contiguous", order, "pages of a directory are not printed together"
